@@ -26,14 +26,15 @@ const (
 
 // Info is the static description of a monitor used for the evidence file.
 type Info struct {
-	Level       string   // evidence level: exploration | fault_enumeration | ...
-	Rule        string   // how cases are generated and what makes one non-trivial / distinct
-	Assumptions []string // trusted base
-	MinDistinct int      // a run that saw fewer distinct non-trivial cases is inconclusive (>= 2)
-	Exhaustive  bool     // the case list enumerates a finite space completely (reported in coverage)
-	Serial      bool     // all cases must run in ONE worker process (process-global state)
-	Race        bool     // workers are the -race binary; race reports are violations
-	MaxWorkers  int      // 0 = default
+	Level             string   // evidence level: exploration | fault_enumeration | ...
+	Rule              string   // how cases are generated and what makes one non-trivial / distinct
+	Assumptions       []string // trusted base
+	MinDistinct       int      // a run that saw fewer distinct non-trivial cases is inconclusive (>= 2)
+	Exhaustive        bool     // the case list enumerates a finite space completely (reported in coverage)
+	Serial            bool     // all cases must run in ONE worker process (process-global state)
+	Race              bool     // workers are the -race binary; race reports are violations
+	MaxWorkers        int      // 0 = default
+	MaxCasesPerWorker int      // 0 = default (25000): a worker process is replaced after this many cases
 }
 
 // Prop is a property monitor.
